@@ -125,8 +125,11 @@ def _element(eng, node_elts, gen, st, fid, seq, inner=None):
         outs = eng.eval(e, s_e, cf)
         outs = [o for o in outs]
         if len(outs) == 1 and outs[0][0] == "raise" and cond is None and inner is None and len(node_elts) == 1 and not vals:
-            # the element expression raises for EVERY element (e.g. `e.id` over a list of strings): see listcomp
-            raise ElementAlwaysRaises(outs[0][2])
+            # the element expression raises for EVERY element (e.g. `e.id` over a list of strings): see listcomp; only when
+            # nothing was changed before the exception (the state reported with it is the one the comprehension started in)
+            s_r = outs[0][1]
+            if all(_same_heap(s_r, st, f) for f in s_r.heap) and not any(oid in st.objs and s_r.objs[oid] is not st.objs[oid] for oid in s_r.objs):
+                raise ElementAlwaysRaises(outs[0][2])
         if len(outs) != 1 or outs[0][0] != "ok":
             raise Unsupported("comprehension element forks or raises")
         _, s_e, v = outs[0]
